@@ -4,6 +4,7 @@ package dsstate
 
 import (
 	"context"
+	"errors"
 	"io"
 
 	"github.com/ipfs/ipfs-cluster/api"
@@ -215,6 +216,20 @@ func (st *State) Marshal(w io.Writer) error {
 // it ends up holding exactly the parsed key/values (as needed when
 // restoring a snapshot onto a state which is not empty).
 func (st *State) Unmarshal(r io.Reader) error {
+	dec := codec.NewDecoder(r, st.codecHandle)
+
+	// Decode the first entry before touching the store: when the
+	// input is not a dump of a state at all (entries carry no key)
+	// nothing must be removed.
+	var first serialEntry
+	firstErr := dec.Decode(&first)
+	if firstErr != nil && firstErr != io.EOF {
+		return firstErr
+	}
+	if firstErr == nil && first.Key == "" {
+		return errors.New("error unmarshaling state: entry without key")
+	}
+
 	q := query.Query{
 		Prefix:   st.namespace.String(),
 		KeysOnly: true,
@@ -238,18 +253,26 @@ func (st *State) Unmarshal(r io.Reader) error {
 		}
 	}
 
-	dec := codec.NewDecoder(r, st.codecHandle)
+	if firstErr == io.EOF { // empty dump
+		return nil
+	}
+
+	entry := first
 	for {
-		var entry serialEntry
-		if err := dec.Decode(&entry); err == io.EOF {
-			break
-		} else if err != nil {
-			return err
+		if entry.Key == "" {
+			return errors.New("error unmarshaling state: entry without key")
 		}
 		k := st.namespace.Child(ds.NewKey(entry.Key))
 		err := st.dsWrite.Put(k, entry.Value)
 		if err != nil {
 			logger.Error("error adding unmarshaled key to datastore:", err)
+			return err
+		}
+
+		entry = serialEntry{}
+		if err := dec.Decode(&entry); err == io.EOF {
+			break
+		} else if err != nil {
 			return err
 		}
 	}
